@@ -108,7 +108,19 @@ class C20(Prop):
 
     def cases(self, rng, tier):
         n = {"quick": 1000, "thorough": 20000}[tier]
-        return [self._case(rng) for _ in range(n)]
+        out = [self._case(rng) for _ in range(n)]
+        # history: the template is a piece (isel) of a larger array on which the same geometries were rasterised before;
+        # xarray hands the coordinate attributes of the parent on to the piece
+        for _ in range(n // 5):
+            c = self._case(rng)
+            c["parent"] = [rng.randint(0, 3), rng.randint(0, 3), rng.randint(0, 3), rng.randint(0, 3)]
+            if c["t0"] - c["parent"][0] * c["tstep"] < 0:
+                c["parent"][0] = 0
+            if c["f0"] - c["parent"][2] * c["fstep"] < 0:
+                c["parent"][2] = 0
+            if sum(c["parent"]) > 0:
+                out.append(c)
+        return out
 
     # ------------------------------------------------------------------ implementation
     def _template(self, c, transpose=False):
@@ -128,7 +140,19 @@ class C20(Prop):
             dims = ["channel"] + dims if rs.rand() < 0.5 else dims + ["channel"]
             shape = [2] + shape if dims[0] == "channel" else shape + [2]
             coords["channel"] = [0, 1]
-        return xr.DataArray(rs.rand(*shape), dims=dims, coords=coords), tc, fc
+        arr = xr.DataArray(rs.rand(*shape), dims=dims, coords=coords)
+        if c.get("parent"):
+            a, b, lo, hi = c["parent"]
+            ptc = [float(c["t0"] + (i - a) * c["tstep"]) for i in range(c["nt"] + a + b)]
+            pfc = [float(c["f0"] + (j - lo) * c["fstep"]) for j in range(c["nf"] + lo + hi)]
+            pshape = {"time": len(ptc), "frequency": len(pfc), "channel": 2}
+            pcoords = dict(coords, time=ptc, frequency=pfc)
+            parent = xr.DataArray(rs.rand(*[pshape[d] for d in dims]), dims=dims, coords=pcoords)
+            self._call(c, parent, c["all_touched"])  # the earlier use
+            piece = parent.isel(time=slice(a, a + c["nt"]), frequency=slice(lo, lo + c["nf"]))
+            assert list(piece.coords["time"].data) == tc and list(piece.coords["frequency"].data) == fc
+            arr = piece
+        return arr, tc, fc
 
     def _call(self, c, arr, all_touched):
         import numpy as np
